@@ -41,8 +41,19 @@ DECIDES = ('C20-ORDER: for each entry of the order table (binary and boolean ope
            'C20-LISTDIR: every code-generation loop (23 sites) that requests evaluation / assignment code from the elements of a child list (display items, dict items, constituent and cascaded '
            'assignments, unpacking targets, default sub-expressions) iterates the list front to back. '
            'C20-KWMAP: for the 183 calls of the family (3 and 4 declared parameters x positional / keyword split x keyword order x simple / non-simple arguments) map_to_simple_call_node evaluates '
-           'every non-simple argument once, in the order written, and binds every temporary.')
-NOT_DECIDED = ('assignment / call / target shapes outside the families of C20-REWRITE, C20-INPLACE, C20-KWMAP (longer chains, deeper nesting, string unpacking, C struct targets); the relative order of '
+           'every non-simple argument once, in the order written, and binds every temporary. '
+           'C20-BATCH (round 7): every code-generation loop of ExprNodes.py over a child list (11 sites) that requests the evaluation code of an element does not, in the same iteration, emit an operation on '
+           'that element which the generator itself declares fallible (put_error_if_neg / error_goto...; helper methods inlined, emitted text followed through locals): all items of a set display are evaluated '
+           'before the first PySet_Add (unhashable item / logging __hash__ are observed after the last item expression, as with BUILD_SET); the unpacking displays (MergedSequenceNode, the `**` items of '
+           'MergedDictNode) are the table of exceptions taken from the language reference. '
+           'C20-CHAIN (round 7): for the linked chain of a chained comparison (chain classes are found structurally: one child attribute through which >= 2 non-framework methods call themselves with a compatible '
+           'signature; heads = classes that enter the chain with another signature): (A) every chain method that rewrites / evaluates an operand of its own link calls itself on the next link on every completing '
+           'path on which a next link may exist; (C) an operand that a link (or the head) asks for its evaluation code and also hands to the next link is made simple (coerce_to_simple / coerce_to_temp) in a '
+           'method that is applied to the chain, under no stronger condition than "there is a next link" (or "not simple yet").')
+NOT_DECIDED = ('C20-BATCH: dict displays (DictNode and the pairs inlined by MergedDictNode are filled pair by pair on the unmodified tree: FINDING_1 of session J5, rule part C20-BATCH-DICT unregistered); operations the generator does not '
+               'declare fallible; loops outside ExprNodes.py. C20-CHAIN: a chain method whose only recursive call was removed and that the head calls on itself (CmpNode.coerce_operands_to) is no longer recognisable as one; '
+               'whether coerce_to_simple really yields a simple node. '
+               'assignment / call / target shapes outside the families of C20-REWRITE, C20-INPLACE, C20-KWMAP (longer chains, deeper nesting, string unpacking, C struct targets); the relative order of '
                'temporaries and inline items in flattened assignments and the routing of re-ordered keyword arguments are decided by C20-REWRITE-XORDER and C20-KWMAP-ROUTING (armed after the repairs of '
                'FINDING_2 and FINDING_4 of session s4-G5); the re-read of the owner NAME / C-level attribute path of an augmented target is the known finding K14 (C01-INPLACE-NAME, shared with C01; '
                'C20-INPLACE-READONCE, whose model does not know result_in_temp(), stays unregistered); '
@@ -126,7 +137,15 @@ MUTATIONS += [      # fourth round (session s4-G5): patches and verdicts in /ver
     ('Cython/Compiler/ExprNodes.py', 'map_to_simple_call_node: `if new_temps: args = final_args` dropped (double evaluation); preceding arguments not moved into temporaries', 'C20-KWMAP once / order'),
     ('Cython/Compiler/Nodes.py', 'unroll_assignments: `refs[::-1]` -> `refs`', 'MISSED: the list is built in SingleAssignmentNode.unroll by straight-line appends; its order is not established (NOT_DECIDED)'),
 ]
-SILENT_EDITS = [   # behaviour-preserving, no new violation
+MUTATIONS += [      # seventh round (session J5): patches and verdicts in /verif/mutants/C20/j5-*
+    ('Cython/Compiler/ExprNodes.py', 'SEED C20j: SetNode evaluates each item inside the PySet_Add loop; variants: helper per item, index loop, while/pop loop, putln + error_goto, f-string + zip, first item apart', 'C20-BATCH ExprNodes.SetNode.generate_evaluation_code:args'),
+    ('Cython/Compiler/ExprNodes.py', 'SEED C20i: coerce_cascaded_operands_to_temp without the recursion; recursion only in the is_simple() branch; CascadedCmpNode.generate_evaluation_code hands on only without coerced operand', 'C20-CHAIN ...:cascade:forward'),
+    ('Cython/Compiler/ExprNodes.py', 'head no longer calls cascade.coerce_cascaded_operands_to_temp / no longer makes operand2 simple; shared operand made simple only for Python objects / only when the next link has a successor', 'C20-CHAIN <class>:operand2:shared-simple'),
+    ('Cython/Compiler/ExprNodes.py', 'CmpNode.coerce_operands_to without the recursion', 'MISSED (see NOT_DECIDED)'),
+]
+SILENT_EDITS = [
+    'SetNode: two loops with renamed locals / enumerate / text in a local; the two loops in two helper methods; disposal in a third loop',
+    'coerce_cascaded_operands_to_temp: local alias of the link + early return; `if not operand2.is_simple(): coerce_to_temp`; head: the coercion lines in a helper method',   # behaviour-preserving, no new violation
     "DictItemNode: subexprs = ['value', 'key'] (its explicit generate_evaluation_code decides the order)",
     "BinopNode: subexprs as a tuple",
     'SimpleCallNode.generate_evaluation_code: list `operands`, loop variable renamed, `if operand is None: continue`',
@@ -145,13 +164,18 @@ SILENT_EDITS = [   # behaviour-preserving, no new violation
 # (`f() < g() < h()` with cdef noexcept functions logged g, f, h) - repaired in /repo (cdf5a6519), the rule is registered.
 def run(ctx):
     from ..rules import flatpar
-    from ..rules import sC20, pC01, dD5
+    from ..rules import sC20, pC01, dD5, s7C20
     return [pC20.rule_order(ctx), pC20.rule_once(ctx), pC20.rule_let_order(ctx), pC20.rule_drop(ctx), flatpar.rule_flat(ctx),
             sC20.rule_paste(ctx), sC20.rule_stack(ctx), sC20.rule_hoist(ctx),
             sC20.rule_rewrite(ctx, 'main', floor=200), sC20.rule_inplace(ctx, 'main', floor=10), sC20.rule_short(ctx), sC20.rule_listdir(ctx), sC20.rule_kwmap(ctx, 'main', floor=150),
             sC20.rule_rewrite(ctx, 'cross-order', floor=200), sC20.rule_kwmap(ctx, 'routing', floor=150),
             pC01.rule_inplace(ctx, pending=True, floor=0, tolerant=True),
-            dD5.rule_repaste(ctx), dD5.rule_errconv(ctx), dD5.rule_reuse(ctx)]      # round 6 (rules/dD5.py), armed after the repairs 08e5ac73c, ca5f2514f, 64585f1af       # C01-INPLACE-NAME (known finding K14), shared with C01
+            dD5.rule_repaste(ctx), dD5.rule_errconv(ctx), dD5.rule_reuse(ctx),
+            s7C20.rule_batch(ctx, 'main', floor=9), s7C20.rule_chain(ctx, floor=5),      # round 7 (session J5)
+            s7C20.rule_batch(ctx, 'dict')]           # C20-BATCH-DICT: known finding K19
+    # known finding K19 (FINDING_1 of session J5): s7C20.rule_batch(ctx, 'dict') -> C20-BATCH-DICT reports ExprNodes.DictNode.generate_evaluation_code:key_value_pairs and
+    #   ExprNodes.MergedDictNode.generate_evaluation_code:keyword_args[*].key_value_pairs on the unmodified tree: `{f(1): 1, []: 2, f(3): 3}` stops before f(3) (CPython evaluates all pairs, then raises).
+    # round 6 (rules/dD5.py), armed after the repairs 08e5ac73c, ca5f2514f, 64585f1af       # C01-INPLACE-NAME (known finding K14), shared with C01
     # armed after the repair b8df1e725 (FINDING_2 of session s4-G5): sC20.rule_rewrite(ctx, 'cross-order', floor=200) -> C20-REWRITE-XORDER reports
     #   ParseTreeTransforms.PostParse._visit_assignment_node:cross-order on the unmodified tree: `a1, b1 = a2, *s2 = f(), g()` calls g before f.
     # NOT registered (FINDING_3 of session s4-G5, partially repaired by 43f76656b: Python-level lookups are evaluated once now; the rule's model does not know
